@@ -80,6 +80,11 @@ func runRouterScript(t *testing.T, line string) (trace string) {
 				}()
 			case "rx":
 				f, err := parseFrame(ev.toks[1:])
+				if err == errDropped {
+					// the socket's receiver would have dropped this well-formed datagram
+					add(fmt.Sprintf("decoder-dropped %d %s", now(), strings.Join(ev.toks[1:], "_")))
+					continue
+				}
 				if err != nil {
 					add("bad-frame")
 					continue
